@@ -8,6 +8,7 @@ package ontology
 //@ pure func (id ID) IsType() bool
 
 //@ # ---------------------------------------------------------------- C16: edge keys
+//@ ignorepkg github.com/synnaxlabs/x/gorp
 //@ pure func (id ID) String() string
 //@ pure func (r Relationship) GorpKey() string
 
@@ -44,7 +45,3 @@ package ontology
 //@   atcall WhereRaw forall r Relationship :: wfRel(r) ==> (strings.HasSuffix(r.GorpKey(), string(suffix)) == (r.To == to && r.Type == relationshipType))
 //@   modifies *
 
-//@ lemma edgeKeyInjective(a Relationship, b Relationship)
-//@   theory strings
-//@   requires wfRel(a) && wfRel(b)
-//@   ensures (a.GorpKey() == b.GorpKey()) == (a == b)
